@@ -174,6 +174,9 @@ func (p *Prog) isHarnessFn(fn *ssa.Function) bool {
 	if !f.Pos().IsValid() {
 		return false
 	}
+	if strings.HasPrefix(f.Name(), "vhDrv") {
+		return false // stands in for driver code executed by the library's goroutine
+	}
 	return strings.HasPrefix(filepath.Base(p.prog.Fset.Position(f.Pos()).Filename), "zz_verif_")
 }
 
